@@ -39,10 +39,10 @@ class C07(Check):
             '(contains timeout-1, timeout, timeout+1 for active=4 and inactive=2) x start offset 0..2 x all 12 configurations (each timeout present/None, closing mapper '
             'present/None, include True/False); then random sequences up to 60 items with other timeouts, timestamps as int and as datetime/timedelta (a twelfth of the cases at day scale: timeouts of a day to a week, gaps of days to a year), under group_by '
             'with interleaved keys, in roll and in split. non-trivial = some key lifetime has >= 2 windows; distinct = hash of the case')
-    ASSUMPTIONS = ['timestamps are non-decreasing per key and timeouts are > 0 (domain of the property)',
+    ASSUMPTIONS = ['timestamps are non-decreasing per key; timeouts are >= 0 (a zero timeout makes every item open a new window, as the statement says)',
                    'closing_mapper returns a bool']
     ANCHORS = ['rxsci/data/time_split.py', 'rxsci/operators/multiplex.py']
-    REQUIRED_TAGS = ['top', 'group', 'active', 'inactive', 'no-timeout', 'closing', 'include', 'exclude', 'datetime', 'equal-timestamps', 'gap=timeout', 'day-scale']
+    REQUIRED_TAGS = ['top', 'group', 'active', 'inactive', 'no-timeout', 'closing', 'include', 'exclude', 'datetime', 'equal-timestamps', 'gap=timeout', 'day-scale', 'zero-timeout']
     REQUIRED_OBSERVED = ['child_lifetimes_checked', 'parent_lifetimes_checked', 'empty_windows_dropped']
 
     def generate(self, rng, tier, shard, nshards):
@@ -73,8 +73,8 @@ class C07(Check):
         names = ['group', 'top', 'roll', 'split', 'group']
         for j in range(k):
             name = names[j % len(names)]
-            a = rng.choice([None, 3, 5, 8])
-            b = rng.choice([None, 2, 3, 4])
+            a = rng.choice([None, 3, 5, 8, 0]) if j % 7 == 3 else rng.choice([None, 3, 5, 8])
+            b = rng.choice([None, 2, 3, 4, 0]) if j % 7 == 5 else rng.choice([None, 2, 3, 4])
             alpha = sorted({0, 1, 2, (a or 3) - 1, a or 3, (a or 3) + 1, (b or 2) - 1, b or 2, (b or 2) + 1})
             if j % 12 == 6:
                 # day scale: timeouts of a day or more and gaps of days / years (timedelta.days matters)
@@ -100,6 +100,8 @@ class C07(Check):
             out.tags.append('inactive')
         if cfg['active'] is None and cfg['inactive'] is None:
             out.tags.append('no-timeout')
+        if cfg['active'] == 0 or cfg['inactive'] == 0:
+            out.tags.append('zero-timeout')       # a timeout of zero is not 'no timeout': every item opens its own window
         if cfg['closing']:
             out.tags += ['closing', 'include' if cfg['include'] else 'exclude']
         if cfg.get('time') == 'dt':
